@@ -107,6 +107,20 @@ type cliCase struct {
 	auth    bool
 	seed    uint64
 	scripts [][]item
+	keyed   bool // keyed child: the client fetches its key from the harness' DRKey daemon
+	mode    int  // keyed: how the daemon treats the client's AS (modeOK, modeError, ...)
+}
+
+// scenario of a keyed case (first argument; the known-finding patterns of the strict kind refer to it):
+// 1 key available, 2 no key (daemon error / key of a wrong length), 3 key of an epoch that is over
+func (c *cliCase) scenario() int {
+	switch c.mode {
+	case modeError, modeShort, modeLong:
+		return 2
+	case modeExpired:
+		return 3
+	}
+	return 1
 }
 
 func (c *cliCase) args() string {
@@ -118,7 +132,19 @@ func (c *cliCase) args() string {
 		}
 		ss = append(ss, lib.L(is...))
 	}
+	if c.keyed {
+		return lib.V(lib.I(int64(c.scenario())), lib.Bool(c.auth), lib.U(c.seed), lib.I(int64(c.mode)), lib.L(ss...))
+	}
 	return lib.V(lib.Bool(c.auth), lib.U(c.seed), lib.L(ss...))
+}
+
+// parseKeyedCliArgs: scenario auth seed mode scripts
+func parseKeyedCliArgs(args string) *cliCase {
+	f := strings.Fields(args)
+	c := parseCliArgs(strings.Join(append([]string{f[1], f[2]}, f[4:]...), " "))
+	c.keyed = true
+	c.mode = int(lib.ParseI(f[3]))
+	return c
 }
 
 func parseCliArgs(args string) *cliCase {
@@ -274,7 +300,31 @@ func (d *drv) craft(r *lib.Rng, q *parsed, it item, k int, remoteHost []byte) []
 		h.scmpType = lib.Pick(r, uint8(1), 2, 4, 129)
 	}
 	if it.auth != 0 {
-		addAuthDir(r, h, it.auth-1, tags, scion.PacketAuthSPIServer, scion.PacketAuthSPIClient)
+		mode := it.auth - 1
+		if it.auth >= 13 {
+			mode = 0
+		}
+		addAuthDir(r, h, mode, tags, scion.PacketAuthSPIServer, scion.PacketAuthSPIClient)
+		// keyed client: a well-formed authenticator whose MAC is computed under a key that is not the
+		// one of this exchange: of the previous epoch, of another client host, the mock key
+		srvIA, cliIA := uint64(q.scn.DstIA), uint64(q.scn.SrcIA)
+		srvHost, cliHost := q.scn.RawDstAddr, q.scn.RawSrcAddr
+		switch it.auth {
+		case 13:
+			h.key = ownKey(srvIA, cliIA, srvHost, cliHost, epochServed(cliIA)-1)
+		case 14:
+			other := append([]byte(nil), cliHost...)
+			other[len(other)-1] ^= 1
+			h.key = ownKey(srvIA, cliIA, srvHost, other, epochServed(cliIA))
+		case 15:
+			h.key = zeroKey
+		}
+		// the key of this exchange (the response's own address header may name other hosts)
+		if keyedDaemonAddr != "" && h.key == nil {
+			if h.key = keyedKey(q); h.key == nil {
+				h.key = []byte{}
+			}
+		}
 	}
 	raw, err := h.build()
 	if err != nil {
@@ -458,9 +508,9 @@ func (d *drv) runSrvRet(tags string, steps []step) []obs {
 	for _, s := range steps {
 		reps, nsent := d.exchange(s.sender, s.listener, s.raw)
 		last = reps
-		outs = append(outs, lib.L(view(s.raw), obsList(reps), lib.I(int64(nsent))))
+		outs = append(outs, stepOut(s, reps, nsent))
 	}
-	emitCase("srv", tags, args, lib.V("0", d.cfgString(), lib.L(outs...)))
+	emitCase(srvKind, tags, args, lib.V("0", d.cfgString(), lib.L(outs...)))
 	return last
 }
 
@@ -470,6 +520,9 @@ func (d *drv) runCli(kind, tags string, cc *cliCase, sender int) {
 	r := lib.NewRng(cc.seed)
 	v6 := v6ok && r.Intn(4) == 0
 	localIA := addr.IA(uint64(1+r.Intn(3))<<48 | 0xff0000000300 | uint64(r.Intn(64)))
+	if cc.keyed && cc.mode != modeOK {
+		localIA = addr.IA(uint64(localIA)&^0xff00 | uint64(cc.mode)<<8)
+	}
 	remoteIA := addr.IA(uint64(1+r.Intn(3))<<48 | 0xff0000000400 | uint64(r.Intn(64)))
 	if r.Intn(6) == 0 {
 		remoteIA = localIA
@@ -504,6 +557,9 @@ func (d *drv) runCli(kind, tags string, cc *cliCase, sender int) {
 	c.Log = slog.New(lg)
 	c.Auth.Enabled = cc.auth
 	c.Auth.DRKeyFetcher = scion.NewFetcher(nil)
+	if cc.keyed {
+		c.Auth.DRKeyFetcher = scion.NewFetcher(scion.NewDaemonConnector(context.Background(), keyedDaemonAddr))
+	}
 
 	var exs []string
 	for _, script := range cc.scripts {
@@ -514,19 +570,32 @@ func (d *drv) runCli(kind, tags string, cc *cliCase, sender int) {
 			emitMu.Unlock()
 			return
 		}
+		var xkey []byte // the key of this exchange: nil = the mock key
+		if cc.keyed {
+			if xkey = keyedKey(parse(eo.req)); xkey == nil {
+				xkey = []byte{}
+			}
+		}
 		var rs []string
 		for k, raw := range eo.resps {
-			rs = append(rs, lib.L(viewAs(raw, false), lib.I(eo.classes[k])))
+			rs = append(rs, lib.L(viewKey(raw, false, xkey), lib.I(eo.classes[k])))
 		}
-		exs = append(exs, lib.L(view(eo.req), lib.L(rs...), eo.result))
+		exs = append(exs, lib.L(viewKey(eo.req, true, xkey), lib.L(rs...), eo.result))
 	}
 	lh := []byte(localIP.To4())
 	if v6 {
 		lh = []byte(localIP.To16())
 	}
 	cfg := lib.L(lib.U(uint64(localIA)), lib.B(lh), lib.U(uint64(remoteIA)), lib.B(rh))
+	if cc.keyed {
+		sc := cc.scenario()
+		cfg = lib.L(lib.U(uint64(localIA)), lib.B(lh), lib.U(uint64(remoteIA)), lib.B(rh), lib.Bool(sc != 2), lib.Bool(sc != 3))
+	}
 	emitMu.Lock()
 	emitCase(kind, tags, args, lib.V("0", cfg, lib.L(exs...)))
+	if strictOn && kind == "cli.keyed" {
+		emitCase("cli.strict", tags, args, lib.V("0", cfg, lib.L(exs...)))
+	}
 	emitMu.Unlock()
 }
 
